@@ -387,7 +387,7 @@ def parsePrimValue (ts : TypeSystem) : Nat → String → Val → Except Err Val
 
 /-- first pass over one FS element: `_parse_feature_structure` -/
 def parseFsElem (K : Consts) (ts : TypeSystem) (tsIdx : Nat) (hp : Heap) (e : XElem) : Except Err (Heap × Int × Nat) := do
-  let t ← getType ts e.ty
+  let t ← getTypeExact ts e.ty
   let kids := groupKids e.kids []
   -- attributes.update(children): children override attributes of the same name, keeping dict positions
   let rawAttrs : List (String × Val) := e.attrs.map (fun p => (p.1, Val.str p.2))
